@@ -89,7 +89,7 @@ case "${1:-}" in
     case "$prop" in
       C14) VERIF_REPLAY="$(realpath "$2")" overlay_test c14 client TestVerifC14;;
       C02|C07|C08|C13) build_b
-         GOMAXPROCS=1 VERIF_EXEC_ONE="$(jq -r .violation.part "$2")|$(jq -c .violation.choices "$2")" exec bin/verifb.test -test.run "^Test$prop\$" -test.timeout 0;;
+         GOMAXPROCS=1 GODEBUG=asyncpreemptoff=1 VERIF_EXEC_ONE="$(jq -r .violation.part "$2")|$(jq -c .violation.choices "$2")" exec bin/verifb.test -test.run "^Test$prop\$" -test.timeout 0;;
       C20) if [ "$(jq -r .violation.part "$2")" = server-shutdown ]; then
            # one scenario of the server-shutdown part, in a process of its own; exit 1 if it violates again
            cp /repo/go.sum realnats/go.sum 2>/dev/null
@@ -103,7 +103,7 @@ case "${1:-}" in
          fi
          python3 gen_gated.py || exit 3
          (cd h && go1.26.8 test -c -vet=off -overlay ../bin/ov_gate.json -o ../bin/verifb_gated.test ./tb) || exit 3
-         GOMAXPROCS=1 VERIF_EXEC_ONE="$(jq -r .violation.part "$2")|$(jq -c ".violation.choices // []" "$2")" exec bin/verifb_gated.test -test.run '^TestC20$' -test.timeout 0;;
+         GOMAXPROCS=1 GODEBUG=asyncpreemptoff=1 VERIF_EXEC_ONE="$(jq -r .violation.part "$2")|$(jq -c ".violation.choices // []" "$2")" exec bin/verifb_gated.test -test.run '^TestC20$' -test.timeout 0;;
       C04) build_s; (cd h && go build -o ../bin/c04writer ./cmd/c04writer) || exit 3; exec bin/verifs replay "$2";;
       *) build_s; exec bin/verifs replay "$2";;
     esac;;
